@@ -30,6 +30,7 @@ type Case struct {
 	PC        string   `json:"pc"`
 	Decision  string   `json:"decision"`
 	MustServe bool     `json:"mustServe"`
+	After     []string `json:"after"`
 }
 
 var suffix = map[string]string{"docs": ".docs", "meta": ".meta", "sdocsTmp": "._sdocs", "sdocs": ".sdocs", "indexTmp": "._index",
@@ -297,6 +298,32 @@ func main() {
 				return
 			}
 			defer e.Halt()
+			// what the loader leaves on disk must be what the specification's Restart leaves
+			{
+				want := map[string]bool{}
+				for _, k := range c.After {
+					want[sn.base+suffix[k]] = true
+				}
+				got := map[string]bool{}
+				ents, _ := os.ReadDir(dir)
+				for _, en := range ents {
+					if strings.HasPrefix(en.Name(), sn.base) {
+						got[en.Name()] = true
+					}
+				}
+				for f := range got {
+					if !want[f] {
+						fail(fmt.Sprintf("after start the file %s is still there; the specification's loader removes it (decision %s)", strings.TrimPrefix(f, sn.base), c.Decision))
+						return
+					}
+				}
+				for f := range want {
+					if !got[f] {
+						fail(fmt.Sprintf("after start the file %s is gone; the specification's loader keeps it (decision %s)", strings.TrimPrefix(f, sn.base), c.Decision))
+						return
+					}
+				}
+			}
 			for round := 0; round < 2; round++ {
 				evals++
 				served, bad := observe(e)
